@@ -164,5 +164,18 @@ harness!(eval_numbers_boundary_64, unwind = 70, |s| { eval_numbers_boundary::<S,
 harness!(eval_numbers_boundary_65, unwind = 70, |s| { eval_numbers_boundary::<S, 65>(s) });
 harness!(eval_numbers_boundary_66, unwind = 70, |s| { eval_numbers_boundary::<S, 66>(s) });
 
-registry!("u1", eval_numbers_boundary_64, eval_numbers_boundary_65, eval_numbers_boundary_66, intrinsics_spec, word_tracker, slice_tracker_3, slice_tracker_4,
+/// native-only probe (never run under Kani: it goes through the parser): evaluates the deep form of
+/// `x+x+..+x` with n operands, n drawn from the first input byte, across the 64/65/128/129 boundaries
+pub fn deep_eval_boundary<S: Src>(s: &mut S) {
+    use exmex::prelude::*;
+    use exmex::DeepEx;
+    let n = s.u8() as usize;
+    s.assume(n >= 2);
+    let text = vec!["x"; n].join("+");
+    let e = DeepEx::<f64>::parse(&text).unwrap();
+    let r = e.eval(&[1.0]).unwrap();
+    assert!(r == n as f64, "deep evaluation of a chain of n operands");
+}
+
+registry!("u1", deep_eval_boundary, eval_numbers_boundary_64, eval_numbers_boundary_65, eval_numbers_boundary_66, intrinsics_spec, word_tracker, slice_tracker_3, slice_tracker_4,
     eval_binary_orders_4, eval_binary_orders_6, eval_binary_orders_4_slice);
